@@ -1,5 +1,5 @@
 (* Model/C17Run.v - case type and checker evaluated on harness-generated cases (C17) *)
-From ReqV Require Export Lib.Bytes Lib.PackedBytes Model.Form Model.Multipart Model.ReqBody Model.Progress.
+From ReqV Require Export Lib.Bytes Lib.PackedBytes Model.Form Model.Multipart Model.ReqBody Model.Progress Model.Session.
 
 Record body_obs := {
   o_arrived : bool;                     (* the origin's handler ran *)
@@ -21,6 +21,7 @@ Inductive c17_case :=
 | WriterCase (total interval t0 : Z) (evs : list (Z * Z)) (obs : list Z)
 | ReaderCase (interval t0 : Z) (evs : list (Z * bool * Z)) (obs : list Z)
 | CallCase (interval : Z) (bodies : list body_run) (obs : list Z)   (* redirect hops + saved body *)
+| SessionCase (nreq : nat) (ops : list sop) (obs : list sout)   (* requests of one client, in sequence *)
 | WriterAnyClock (total : Z) (ns : list Z) (obs : list Z)
 | ReaderAnyClock (ns : list Z) (obs : list Z).
 
@@ -52,6 +53,15 @@ Definition marshaller_eqb (a b : marshaller) : bool :=
   match a, b with MJson, MJson | MXml, MXml => true | _, _ => false end.
 
 Definition preset_ct (q : breq) : bytes := match q_rct q with [] => q_cct q | c => c end.
+
+Definition sout_eqb (a b : sout) : bool :=
+  match a, b with
+  | OutBody i x, OutBody j y => Nat.eqb i j && bytes_eqb x y
+  | OutMarshal i x, OutMarshal j y => Nat.eqb i j && N.eqb x y
+  | OutNone i, OutNone j => Nat.eqb i j
+  | OutErr i, OutErr j => Nat.eqb i j
+  | _, _ => false
+  end.
 
 Definition zlist_eqb (a b : list Z) : bool := list_eqb Z.eqb a b.
 
@@ -113,6 +123,7 @@ Definition c17_check (c : c17_case) : bool :=
   | ReaderCase interval t0 evs obs =>
       zlist_eqb (run_reader interval (r0 t0) evs) obs
   | CallCase interval bodies obs => zlist_eqb (call_reports interval bodies) obs
+  | SessionCase nreq ops obs => list_eqb sout_eqb (srun (sinit nreq) ops) obs
   | WriterAnyClock total ns obs =>
       subseq obs (running 0 ns) &&
       (if existsb (Z.eqb total) (running 0 ns) then existsb (Z.eqb total) obs else true)
